@@ -98,6 +98,58 @@ package vals
 //@   ensures [float64] istype(x, float64) && eq ==> hx == hy
 //@   ensures [string] istype(x, string) && eq ==> hx == hy
 
+// ---------------------------------------------------------------------------
+// C09: compare is a consistent total preorder (harness verifCmp3 calls the real
+// Cmp five times; Cmp, cmpInner, UnifyNums2, ... are inlined). Integers are
+// encoded as 64-bit vectors here (mode bv) so that float64(int) is exact.
+
+//@ spec fn isnum(x any) bool = istype(x, int) || istype(x, float64)
+//@ spec fn le(o Ordering) bool = o == CmpLess || o == CmpEqual
+
+//@ func Cmp
+//@   inline
+//@ func cmpInner
+//@   inline
+//@ func UnifyNums2
+//@   inline
+//@ func getNumType
+//@   inline
+//@ func ConvertToFloat64
+//@   inline
+
+//@ func verifCmp3
+//@   props C09
+//@   mode bv
+//@   pure
+//@   nosafety
+//@   requires isnum(a) && isnum(b) && isnum(c)
+//@   ensures [num-reflexive] aa == CmpEqual
+//@   ensures [num-total] ab != CmpUncomparable && ba != CmpUncomparable
+//@   ensures [num-antisymmetric] (ab == CmpLess) == (ba == CmpMore) && (ab == CmpEqual) == (ba == CmpEqual)
+//@   ensures [num-transitive-int] istype(a, int) && istype(b, int) && istype(c, int) && le(ab) && le(bc) ==> le(ac)
+//@   ensures [num-transitive-float] istype(a, float64) && istype(b, float64) && istype(c, float64) && le(ab) && le(bc) ==> le(ac)
+//@   ensures [num-transitive-mixed] le(ab) && le(bc) ==> le(ac)
+//   the order itself: ints by value; floats by value with NaN below everything and equal to itself;
+//   an int against a float after conversion of the int to float64 (documented rule)
+//@   ensures [int-order] istype(a, int) && istype(b, int) ==> (ab == CmpLess) == (a.(int) < b.(int)) && (ab == CmpMore) == (a.(int) > b.(int))
+//@   ensures [float-order] istype(a, float64) && istype(b, float64) ==> (ab == CmpLess) == ((isnan(a.(float64)) && !isnan(b.(float64))) || a.(float64) < b.(float64))
+//@   ensures [float-order-more] istype(a, float64) && istype(b, float64) ==> (ab == CmpMore) == ((isnan(b.(float64)) && !isnan(a.(float64))) || a.(float64) > b.(float64))
+//@   ensures [int-float-order] istype(a, int) && istype(b, float64) ==> (ab == CmpLess) == ((isnan(b.(float64)) ? false : tofloat(a.(int)) < b.(float64))) && (ab == CmpMore) == (isnan(b.(float64)) || tofloat(a.(int)) > b.(float64))
+
+//@ spec fn issb(x any) bool = istype(x, string) || istype(x, bool)
+
+//@ func verifCmp3s
+//@   props C09
+//@   pure
+//@   nosafety
+//@   requires issb(a) && issb(b) && issb(c)
+//@   ensures [reflexive] aa == CmpEqual
+//@   ensures [antisymmetric] (ab == CmpLess) == (ba == CmpMore) && (ab == CmpEqual) == (ba == CmpEqual) && (ab == CmpUncomparable) == (ba == CmpUncomparable)
+//@   ensures [transitive] le(ab) && le(bc) ==> le(ac)
+//@   ensures [same-type-total] (istype(a, string) == istype(b, string)) == (ab != CmpUncomparable)
+//@   ensures [string-order] istype(a, string) && istype(b, string) ==> (ab == CmpLess) == strlt(a.(string), b.(string)) && (ab == CmpMore) == strlt(b.(string), a.(string))
+//@   ensures [bool-order] istype(a, bool) && istype(b, bool) ==> (ab == CmpLess) == (!a.(bool) && b.(bool)) && (ab == CmpMore) == (a.(bool) && !b.(bool))
+
 // "invalid" = the decoder reports an encoding error at byte offset i of s.
 //@ spec fn invalidat(s string, i int) bool = runeat(s, i) == RuneError && sizeat(s, i) == 1
 //@ spec fn invalidbefore(s string, i int) bool = lastrune(s, i) == RuneError && lastsize(s, i) == 1
